@@ -63,7 +63,12 @@ type c17World struct {
 	f      *flamego.Flame
 	op     c17Op
 	double string // when set, the handler renders this format first and then op (same request)
+	// preset: when set, the handler before the rendering one has put this Content-Type on the response (a
+	// default-content-type middleware): the render's own Content-Type replaces it
+	preset string
 }
+
+var c17Presets = []string{"application/json", "Text/XML", "text/plain; charset=utf-8", "text/plain", "application/octet-stream; x=1", "text/html; charset=gbk", "APPLICATION/JSON; charset=latin1", "text/xml;charset=x", "application/octet-stream"}
 
 func c17Build(o c17Opts) *c17World { return c17BuildStacked(o, nil) }
 
@@ -102,7 +107,11 @@ func c17BuildStacked(o c17Opts, o2 *c17Opts) *c17World {
 			r.PlainText(w.op.Status, w.op.Val.(string))
 		}
 	}
-	w.f.Routes("/", "GET,HEAD,POST", func(c flamego.Context) {}, func(r flamego.Render) { render(r) })
+	w.f.Routes("/", "GET,HEAD,POST", func(c flamego.Context) {
+		if w.preset != "" {
+			c.ResponseWriter().Header().Set("Content-Type", w.preset)
+		}
+	}, func(r flamego.Render) { render(r) })
 	return w
 }
 
@@ -289,6 +298,8 @@ type c17Case struct {
 	Stacked *c17Opts `json:"second_renderer_on_another_route,omitempty"`
 	// Large: the request follows requests that rendered a large document of the same format
 	Large bool `json:"after_large_documents,omitempty"`
+	// Preset: the Content-Type an earlier handler of the request had put on the response
+	Preset string `json:"content_type_set_before_the_render,omitempty"`
 }
 
 // c17Refused returns values of the same top-level type as v that the standard encoders refuse (a
@@ -420,7 +431,7 @@ func c17Run(r *core.Run) {
 		}
 	}
 	ops := c17Ops(r.Thorough())
-	r.Rule = "engine E: every status 100..999 x {JSON, XML, Binary, PlainText} x all 8 option sets (charset x JSON indent x XML indent); values: every byte string of length <=1 and a grid (thorough: all) of length 2 plus longer ones for Binary/PlainText, JSON trees over {null,bool,numbers,strings incl. html-sensitive and non-ASCII} to depth 2 width 2 plus structs/slices/maps, five XML struct shapes with all field values from {'', a, <&>\", e-acute, blanks, ]]>}; every third render also around requests through a route that carries a second Renderer with other options; every third render also inside sequences of large (2 KiB), medium and small bodies of its kind on the same instance; every JSON/XML value with an interface in it also as the request after one or two requests (same instance) whose value of the same type the encoder refused; oracle: exact status at the underlying writer, exact Content-Type, bytes/strings verbatim, JSON/XML text equal to the standard encoder's output with the configured indentation and decoding back to an equal value; non-trivial = non-200 status or a value that needs escaping"
+	r.Rule = "engine E: every status 100..999 x {JSON, XML, Binary, PlainText} x all 8 option sets (charset x JSON indent x XML indent); values: every byte string of length <=1 and a grid (thorough: all) of length 2 plus longer ones for Binary/PlainText, JSON trees over {null,bool,numbers,strings incl. html-sensitive and non-ASCII} to depth 2 width 2 plus structs/slices/maps, five XML struct shapes with all field values from {'', a, <&>\", e-acute, blanks, ]]>}; every fourth render also with each of nine Content-Type values already put on the response by an earlier handler; every third render also around requests through a route that carries a second Renderer with other options; every third render also inside sequences of large (2 KiB), medium and small bodies of its kind on the same instance; every JSON/XML value with an interface in it also as the request after one or two requests (same instance) whose value of the same type the encoder refused; oracle: exact status at the underlying writer, exact Content-Type, bytes/strings verbatim, JSON/XML text equal to the standard encoder's output with the configured indentation and decoding back to an equal value; non-trivial = non-200 status or a value that needs escaping"
 	r.Bounds["ops"] = len(ops)
 	r.Bounds["option_sets"] = len(optsets)
 	r.Assumptions = []string{"encoding/json and encoding/xml are the reference encoders (trusted)", "values the standard encoders refuse are outside the statement"}
@@ -443,6 +454,25 @@ func c17Run(r *core.Run) {
 					l.NonTrivial++
 				}
 				bad, kind := c17Judge(worlds[si], o, op)
+				preset := ""
+				if bad == "" && (oi+si)%4 == 1 {
+					for _, ps := range c17Presets {
+						l.Evals++
+						l.Transitions++
+						l.Traces++
+						l.NonTrivial++
+						worlds[si].preset = ps
+						bad, kind = c17Judge(worlds[si], o, op)
+						worlds[si].preset = ""
+						if bad != "" {
+							bad = fmt.Sprintf("with Content-Type %q already on the response when the render is called: ", ps) + bad
+							kind += "/content-type-set-before"
+							preset = ps
+							break
+						}
+						l.Class("content-type-set-before-the-render")
+					}
+				}
 				seq := false
 				if bad == "" && (oi+si)%3 == 0 {
 					seq = true
@@ -532,7 +562,7 @@ func c17Run(r *core.Run) {
 				}
 				if bad != "" {
 					l.Class("mismatch")
-					l.Violate(kind+"/"+op.Kind, bad+fmt.Sprintf(" [options %+v, %s(%d, %s)]", o, op.Kind, op.Status, trunc(fmt.Sprintf("%#v", op.Val))), c17Case{Opts: o, Kind: op.Kind, Status: op.Status, Val: trunc(fmt.Sprintf("%#v", op.Val)), Index: oi, Refused: refused, Stacked: stacked, Large: afterLarge,
+					l.Violate(kind+"/"+op.Kind, bad+fmt.Sprintf(" [options %+v, %s(%d, %s)]", o, op.Kind, op.Status, trunc(fmt.Sprintf("%#v", op.Val))), c17Case{Opts: o, Kind: op.Kind, Status: op.Status, Val: trunc(fmt.Sprintf("%#v", op.Val)), Index: oi, Refused: refused, Stacked: stacked, Large: afterLarge, Preset: preset,
 						Seq: seq && !refused && stacked == nil && !afterLarge && (strings.HasPrefix(bad, "in the request sequence") || strings.HasPrefix(bad, "after an earlier request"))})
 					continue
 				}
@@ -588,7 +618,9 @@ func c17Replay(raw json.RawMessage) (bool, string) {
 		ops := c17Ops(th)
 		if c.Index < len(ops) && ops[c.Index].Kind == c.Kind && ops[c.Index].Status == c.Status && trunc(fmt.Sprintf("%#v", ops[c.Index].Val)) == c.Val {
 			w := c17Build(c.Opts)
+			w.preset = c.Preset
 			bad, _ := c17Judge(w, c.Opts, ops[c.Index])
+			w.preset = ""
 			if bad == "" && c.Seq {
 				for _, m := range []string{"HEAD", "GET", "POST"} {
 					if bad, _ = c17JudgeM(w, c.Opts, ops[c.Index], m); bad != "" {
